@@ -77,6 +77,10 @@ def run(check, prog):
     # ... and the theory chosen by default must not change when the configuration is
     # turned: the choice rests on counts, radii and pairwise distances only
     _c09.cluster(check, prog)
+    # a theory object reused for a moved / turned / mirrored configuration must
+    # not answer from what it kept of the previous one (rule shared with C01)
+    from . import c01 as _c01
+    _c01.f5_state(check, prog)
     f2py_coordinate_roles(check, prog)
     # the polarisation angle reaches the integrands and the recombination with
     # one and the same sign (rule shared with C08)
